@@ -26,7 +26,7 @@ LEVEL_TEXT = ("Every element of the listed product space is executed on the real
               "and the joint law implied by the returned MarkovSequence are compared with an independent exact RTS reference.")
 LEVEL_NOTE = ("Trusted: mpmath; reference semantics transcribed from the documentation (self-checked against batch conditioning in C02). Step histories are scripted "
               "(dyadic sizes), so no tolerance-driven history is explored here (C01/C05 do that).")
-TIMEOUT_S = {"quick": 1500, "thorough": 10800}
+TIMEOUT_S = {"quick": 1800, "thorough": 21600}
 EPS = 2.0 ** -20
 DAMP = 2.0 ** -10
 
